@@ -63,9 +63,18 @@ def check_drivers(ctx):
             ctx.expect(ok, 'CFG-5', 'per-file format: sort_to_match before write', where_, 'sort_to_match(par_table[\'MODEL_NAME\']) then write, on the same object',
                        'call sequence on the convolved fluxes: %s' % [(s[0], [alg.show(a.poly, 40) if isinstance(a, Arr) else a for a in s[2]]) for s in seq], 'sort-before-write')
         if v == 2:
-            guard = [a for a in I.assumed if a[4] == 'raise-guard' and 'MODEL_NAME' in a[2] and 'names' in a[2]]
-            first_store = min([c[3].lineno for c in h.calls if c[0] == 'write'] or [10 ** 9])
-            ctx.expect(bool(guard) and guard[0][1] < first_store, 'CFG-5', 'cube format: names compared with the parameter table first', where_,
+            # a guard whose precondition is "the parameter-table names equal the cube names, element by element", passed before the first write
+            # (order of events in the interpretation, not line numbers: the writing may live in a helper defined anywhere)
+            want = mk_fn('all', B(M, alg.eq(sym('pnames', M), sym('cnames', M))))
+            pos = None
+            for k_, g in enumerate(I.assumed):
+                if g[4] == 'raise-guard' and len(g) > 5 and isinstance(g[5], Arr) and g[5].ndim == 0:
+                    pre = g[5].poly if g[3] else alg.b_not(g[5].poly)
+                    if alg.is_zero(pre - want)[0]:
+                        pos = k_
+                        break
+            first_write = min([c[4] for c in h.calls if c[0] == 'write'] or [10 ** 9])
+            ctx.expect(pos is not None and pos < first_write, 'CFG-5', 'cube format: names compared with the parameter table first', where_,
                        'raises when par_table names differ from the cube names, before any file is written', 'no names check before writing', 'names-check')
 
 
